@@ -115,8 +115,12 @@ impl<'a, 'b> Packer<'a, 'b> {
                                 text = Some(json!([salt, m.name, v, "extra"]).to_string());
                             }
                             4 => {
-                                self.deviations.push("member_disclosure_arity_5");
-                                text = Some(json!([salt, m.name, v, 1, 2]).to_string());
+                                // 5, or the right arity plus a multiple of 256 / 65536
+                                let extra = [2usize, 256, 512, 65536][self.ch.pick(4)];
+                                self.deviations.push(if extra == 2 { "member_disclosure_arity_5" } else { "member_disclosure_arity_3_plus_a_multiple_of_256" });
+                                let mut arr = vec![json!(salt), json!(m.name), v.clone()];
+                                arr.extend(std::iter::repeat(json!(0)).take(extra));
+                                text = Some(Value::Array(arr).to_string());
                             }
                             5 => {
                                 self.deviations.push("member_disclosure_not_an_array");
@@ -300,8 +304,11 @@ impl<'a, 'b> Packer<'a, 'b> {
                                 text = "[]".into();
                             }
                             3 => {
-                                self.deviations.push("element_disclosure_arity_4");
-                                text = json!([salt, v, 1, 2]).to_string();
+                                let extra = [2usize, 256, 512][self.ch.pick(3)];
+                                self.deviations.push(if extra == 2 { "element_disclosure_arity_4" } else { "element_disclosure_arity_2_plus_a_multiple_of_256" });
+                                let mut arr = vec![json!(salt), v.clone()];
+                                arr.extend(std::iter::repeat(json!(0)).take(extra));
+                                text = Value::Array(arr).to_string();
                             }
                             4 => {
                                 self.deviations.push("element_disclosure_not_an_array");
